@@ -331,3 +331,31 @@ def emitStream (s : Stream) : ByteArray := Id.run do
 def emit (ss : Array Stream) : ByteArray := ss.foldl (fun a s => a ++ emitStream s) ByteArray.empty
 
 end Xz
+
+namespace Xz
+open Lzma Lzma2 Rc
+
+/-- specification of a block to build: extra header padding (in 4-byte words), presence of the
+    two optional size fields, dictionary size code, chunks -/
+structure BlockSpec where
+  extraPad : Nat
+  withCs : Bool
+  withUs : Bool
+  dictCode : Nat
+  chunks : Array Chunk
+
+/-- spec encoder for the container: builds a stream around arbitrary chunk sequences with any
+    legal layout (optional size fields, header padding, several blocks, stream padding) -/
+def buildStream (flags : Nat) (blocks : Array BlockSpec) (padAfter : Nat) : ByteArray :=
+  let parsed : Array Block := blocks.map (fun bs =>
+    let st := bs.chunks.foldl emitChunk { h := { out := .empty, dictStart := 0, cap := dictSize bs.dictCode } }
+    let cs := if bs.withCs then some st.out.size else none
+    let us := if bs.withUs then some st.h.out.size else none
+    let fields := 2 + (match cs with | some c => (putUvarint c).size | none => 0) +
+      (match us with | some u => (putUvarint u).size | none => 0) + 3
+    let len := (fields + 3) / 4 * 4 + 4 + 4 * bs.extraPad
+    { hdr := { len := len, csize := cs, usize := us, dictCode := bs.dictCode }, chunks := bs.chunks,
+      usize := st.h.out.size, csize := st.out.size, check := .empty })
+  emitStream { flags := flags, blocks := parsed, padAfter := padAfter }
+
+end Xz
